@@ -23,6 +23,35 @@ pub struct Case {
 
 pub const SVG_NS: &str = "http://www.w3.org/2000/svg";
 
+/// rough tag count: does the text open element `name` more often than it closes it?
+fn opens_more_than_closes(text: &str, name: &str) -> bool {
+    let delim = |c: Option<char>| matches!(c, None | Some(' ' | '\t' | '\n' | '\r' | '>' | '/'));
+    let (mut opens, mut closes) = (0i64, 0i64);
+    let open_pat = format!("<{name}");
+    let close_pat = format!("</{name}");
+    let mut rest = text;
+    while let Some(i) = rest.find(&open_pat) {
+        let after = &rest[i + open_pat.len()..];
+        if delim(after.chars().next()) {
+            // self-closing tags balance themselves
+            let tag_end = after.find('>').unwrap_or(after.len());
+            if !after[..tag_end].ends_with('/') {
+                opens += 1;
+            }
+        }
+        rest = after;
+    }
+    let mut rest = text;
+    while let Some(i) = rest.find(&close_pat) {
+        let after = &rest[i + close_pat.len()..];
+        if delim(after.chars().next()) {
+            closes += 1;
+        }
+        rest = after;
+    }
+    opens > closes
+}
+
 fn is_hostile_char(c: char) -> bool {
     matches!(c, '&' | '<' | '>' | '"' | '\'') || (c as u32) > 0x7e
 }
@@ -421,7 +450,14 @@ impl Property for C02 {
                 let feat = if clause.contains("wellformed") { feature_of(&detail, &out) } else { String::new() };
                 // narrow signature for the listed finding: an element left unclosed in the *input*
                 // is emitted unclosed
-                let input_unclosed = matches!(sxml::parse_content(&case.input), Err(e) if e.msg.starts_with("unclosed element"));
+                // (the output's own defect must be that very element: it is unclosed in the output, and the input
+                // opens it more often than it closes it)
+                let unclosed_name = detail.split("unclosed element '").nth(1).and_then(|r| r.split('\'').next()).map(|s| s.to_string());
+                let input_unclosed = match &unclosed_name {
+                    Some(n) => opens_more_than_closes(&case.input, n),
+                    // an unclosed root <svg> is closed early by the writer: what follows it then looks like further roots
+                    None => detail.contains("more than one root") && matches!(sxml::parse_content(&case.input), Err(e) if e.msg.starts_with("unclosed element")),
+                };
                 let sig = if clause.contains("wellformed") && input_unclosed {
                     "c02:unclosed-element-in-input".to_string()
                 } else {
